@@ -5,6 +5,11 @@ cd "$(dirname "$0")"
 export CARGO_NET_OFFLINE=true
 [ -f harness/Cargo.lock ] || cp /repo/Cargo.lock harness/Cargo.lock
 (cd lean && lake build driver) || exit 1
+# One invocation for all property modules first: lake then schedules the whole dependency graph over all cores
+# (the proof chains of different properties are independent).  Failures are reported per module by the loop below,
+# which is a no-op for everything this invocation built.
+mods=$(for f in lean/IncrVerif/Props/*.lean; do printf 'IncrVerif.Props.%s ' "$(basename "$f" .lean)"; done)
+(cd lean && lake build $mods) >/dev/null 2>&1
 for f in lean/IncrVerif/Props/*.lean; do
   m=IncrVerif.Props.$(basename "$f" .lean)
   (cd lean && lake build "$m") || echo "WARNING: $m does not build"
